@@ -290,8 +290,18 @@ def run(ctx):
         kind, detail = consumption(body, box[0][0], box[0][1])
         dom = body.dominates(box[0][0], poly[0][0])
         ret_is_poly = poly[0][1]["dest"] == 0
-        if kind == "propagated" and dom and ret_is_poly:
-            ctx.ok("c13.order", key, "aabb.intersects(ray)? dominates the polygon test, whose answer is returned", occ.loc())
+        osc = Scope(prog, occ)
+        extra = []
+        for (_, d_, n_, tk_) in osc.conditions(poly[0][0]):
+            n_ = strip(n_)
+            if n_[0] == "discr" and "branch(" in show(n_):
+                continue      # the `?` on the box test
+            extra.append("%s is %s" % (show(n_)[:60], tk_))
+        if kind == "propagated" and dom and ret_is_poly and extra:
+            ctx.violation("c13.order", key, "after the box test succeeds the polygon is tested only when %s: an obstacle whose box the ray does hit is dropped without looking "
+                          "at its polygon (e.g. a negative entry distance means the ray starts inside the box, not that the obstacle is behind it)" % " and ".join(extra), occ.loc(poly[0][1].get("ln")))
+        elif kind == "propagated" and dom and ret_is_poly:
+            ctx.ok("c13.order", key, "aabb.intersects(ray)? dominates the polygon test, which runs whenever the box is hit and whose answer is returned", occ.loc())
         else:
             ctx.violation("c13.order", key, "box test consumption=%s, dominates polygon test=%s, polygon answer returned=%s" % (kind, dom, ret_is_poly), occ.loc())
     else:
